@@ -38,11 +38,11 @@
 //! compact streams (big cases): segs = [[key, start, step, count, modulus]..]; segment = the
 //!          integers (start + step*j) mod modulus, j = 0..count (modulus 0: none), under `key`
 //!   "kh":  in = [k, segs, parts, fan]  every public entry point that builds a KMV sketch on the
-//!          same u64 data; out = ["ok", [adc, cg, cgl, adck, cv, gbkl, cvl, twin, dst, dstk]]
+//!          same u64 data; out = ["ok", [adc, cg, cgl, adck, cv, gbkl, cvl, twin, dst, dstk, dir, adck2]]
 //!          (see Corr/C15.v check_kh); no ranks travel: Coq hashes the elements itself
 //!   "qh":  in = [comb, c, segs, qs, parts, fan, den, vtype]  every public entry point that builds
 //!          a t-digest on the same data (value = integer / den as vtype f64 | f32 | i32 | u16);
-//!          comb = aq | five | pct | median | med | meddef; out = ["ok", [cg, cgl, cv, gbkl, cvl]]
+//!          comb = aq | five | pct | median | med | meddef; out = ["ok", [cg, cgl, cv, gbkl, cvl, cv2]]
 use ibv::{Emitter, SplitMix64, Tier, drive, ok};
 use ironbeam::collection::{CombineFn, LiftableCombiner};
 use ironbeam::combiners::{ApproxMedian, ApproxQuantiles, KMVApproxDistinctCount, TDigest};
@@ -148,6 +148,47 @@ fn u64s(v: &Value) -> Vec<u64> {
 
 fn stat_values(n: u64, a: u64, b: u64) -> Vec<f64> {
     (0..n).map(|i| ((a.wrapping_mul(i).wrapping_add(b)) % n) as f64).collect()
+}
+
+/// merge accumulators: shape 0 = left to right into the first, 1 = right to left (the earlier
+/// part absorbs the later ones), 2 = balanced tree
+fn merge_shape<T>(comb: &KMVApproxDistinctCount<u64>, accs: Vec<T>, shape: u64) -> T
+where
+    KMVApproxDistinctCount<u64>: CombineFn<u64, T, f64>,
+{
+    fn tree<T>(comb: &KMVApproxDistinctCount<u64>, mut v: Vec<T>) -> Option<T>
+    where
+        KMVApproxDistinctCount<u64>: CombineFn<u64, T, f64>,
+    {
+        if v.len() <= 1 {
+            return v.pop();
+        }
+        let right = v.split_off(v.len() / 2);
+        let mut l = tree(comb, v).unwrap();
+        let r = tree(comb, right).unwrap();
+        comb.merge(&mut l, r);
+        Some(l)
+    }
+    match shape {
+        0 => {
+            let mut it = accs.into_iter();
+            let mut a = it.next().unwrap_or_else(|| comb.create());
+            for o in it {
+                comb.merge(&mut a, o);
+            }
+            a
+        }
+        1 => {
+            let mut it = accs.into_iter().rev();
+            let mut a = it.next().unwrap_or_else(|| comb.create());
+            for mut o in it {
+                comb.merge(&mut o, a);
+                a = o;
+            }
+            a
+        }
+        _ => tree(comb, accs).unwrap_or_else(|| comb.create()),
+    }
 }
 
 fn run(kind: &str, input: &Value) -> Value {
@@ -275,40 +316,7 @@ fn run(kind: &str, input: &Value) -> Value {
                 };
                 accs.push(acc);
             }
-            fn tree<T>(comb: &KMVApproxDistinctCount<u64>, mut v: Vec<T>) -> Option<T>
-            where
-                KMVApproxDistinctCount<u64>: CombineFn<u64, T, f64>,
-            {
-                if v.len() <= 1 {
-                    return v.pop();
-                }
-                let right = v.split_off(v.len() / 2);
-                let mut l = tree(comb, v).unwrap();
-                let r = tree(comb, right).unwrap();
-                comb.merge(&mut l, r);
-                Some(l)
-            }
-            let acc = match shape {
-                0 => {
-                    let mut it = accs.into_iter();
-                    let mut a = it.next().unwrap_or_else(|| comb.create());
-                    for o in it {
-                        comb.merge(&mut a, o);
-                    }
-                    a
-                }
-                1 => {
-                    let mut it = accs.into_iter().rev();
-                    let mut a = it.next().unwrap_or_else(|| comb.create());
-                    for mut o in it {
-                        // o.merge(a): the earlier part absorbs the later ones
-                        comb.merge(&mut o, a);
-                        a = o;
-                    }
-                    a
-                }
-                _ => tree(&comb, accs).unwrap_or_else(|| comb.create()),
-            };
+            let acc = merge_shape(&comb, accs, shape);
             ok(json!([fj(comb.finish(acc)), ranks]))
         }
         "kmvp" => {
@@ -430,7 +438,11 @@ fn run_kh(input: &Value) -> Value {
         from_vec(&p, elems.clone()).combine_globally_lifted(KMVApproxDistinctCount::<u64>::new(k), fanout),
         parts,
     ));
-    let adck = collect(from_vec(&p, pairs.clone()).approx_distinct_count_per_key(k), parts);
+    // the same PCollection collected twice: first as asked, then again the other way
+    // (sequentially if it ran in parallel, with 3 partitions if it ran sequentially)
+    let adck_pc = from_vec(&p, pairs.clone()).approx_distinct_count_per_key(k);
+    let adck = collect(adck_pc.clone(), parts);
+    let adck2 = collect(adck_pc, if parts == 0 { 3 } else { 0 });
     let cv = collect(from_vec(&p, pairs.clone()).combine_values(KMVApproxDistinctCount::<u64>::new(k)), parts);
     let gbkl = collect(
         from_vec(&p, pairs.clone()).group_by_key().combine_values_lifted(KMVApproxDistinctCount::<u64>::new(k)),
@@ -447,11 +459,30 @@ fn run_kh(input: &Value) -> Value {
             (key, one(collect(from_vec(&p, mine).approx_distinct_count(k), parts)))
         })
         .collect();
+    // the CombineFn / LiftableCombiner API by hand: one accumulator per segment (even segments
+    // build_from_group, odd ones create + add_input), merged in shape fan % 3
+    let comb = KMVApproxDistinctCount::<u64>::new(k);
+    let accs: Vec<_> = groups
+        .iter()
+        .enumerate()
+        .map(|(i, (_, es))| {
+            if i % 2 == 0 {
+                comb.build_from_group(es)
+            } else {
+                let mut a = comb.create();
+                for &e in es {
+                    comb.add_input(&mut a, e);
+                }
+                a
+            }
+        })
+        .collect();
+    let dir = comb.finish(merge_shape(&comb, accs, fan as u64 % 3));
     let dst = collect(from_vec(&p, elems).distinct(), parts).len();
     let dk = collect(from_vec(&p, pairs).distinct_per_key(), parts);
     let dstk: Vec<Value> =
         keys.iter().map(|&key| json!([key, dk.iter().filter(|kv| kv.0 == key).count()])).collect();
-    ok(json!([fj(adc), fj(cg), fj(cgl), kests(adck), kests(cv), kests(gbkl), kests(cvl), kests(twin), dst, dstk]))
+    ok(json!([fj(adc), fj(cg), fj(cgl), kests(adck), kests(cv), kests(gbkl), kests(cvl), kests(twin), dst, dstk, fj(dir), kests(adck2)]))
 }
 
 /// the five pipeline entry points for one t-digest combiner over values of type V
@@ -481,10 +512,13 @@ where
     };
     let cg = glob(collect(from_vec(&p, vals.clone()).combine_globally(comb.clone(), fanout), parts));
     let cgl = glob(collect(from_vec(&p, vals).combine_globally_lifted(comb.clone(), fanout), parts));
-    let cv = keyed(collect(from_vec(&p, pairs.clone()).combine_values(comb.clone()), parts));
+    // the same PCollection collected twice
+    let cv_pc = from_vec(&p, pairs.clone()).combine_values(comb.clone());
+    let cv = keyed(collect(cv_pc.clone(), parts));
+    let cv2 = keyed(collect(cv_pc, parts));
     let gbkl = keyed(collect(from_vec(&p, pairs).group_by_key().combine_values_lifted(comb.clone()), parts));
     let cvl = keyed(collect(from_vec(&p, groups.to_vec()).combine_values_lifted(comb.clone()), parts));
-    json!([cg, cgl, cv, gbkl, cvl])
+    json!([cg, cgl, cv, gbkl, cvl, cv2])
 }
 
 fn qh_typed<V>(input: &Value, conv: &dyn Fn(i64, f64) -> V) -> Value
@@ -888,6 +922,23 @@ fn gen_heavy(seed: u64, tier: Tier) -> Vec<Heavy> {
             }
         }
     }
+    if !thorough {
+        // past every size swept above: d = k - 1 only
+        for k in [16_384u64, 65_536] {
+            kh.push(kh_case(&mut rng, k, &[k - 1], "d-around-k"));
+        }
+    }
+    // sampled error band (statistical claim; sampled, not proved): d well above k
+    let band: Vec<(u64, u64)> = if thorough {
+        vec![(64, 10_000), (256, 10_000), (1024, 10_000), (256, 100_000), (1024, 100_000), (4096, 30_000),
+             (8192, 60_000)]
+    } else {
+        vec![(64, 3000), (256, 10_000), (1024, 10_000), (4096, 12_000)]
+    };
+    for (k, d) in band {
+        kh.push(kh_case(&mut rng, k, &[d], "sampled-error-band"));
+        kh.push(kh_case(&mut rng, k, &[d / 3, d / 2], "sampled-error-band"));
+    }
     // unusual sketch sizes
     let reps = if thorough { 300 } else { 60 };
     for _ in 0..reps {
@@ -1080,6 +1131,23 @@ fn gen_light(seed: u64, tier: Tier, em: &mut Out) {
                 &["fractional-weights", "agreement-only", GRID_MODES[gm]]);
     }
 
+    // ---- 5c. extreme configuration values: compression 0, negative, NaN, infinite, huge, tiny
+    let reps = if thorough { 20 } else { 3 };
+    for _ in 0..reps {
+        for &c in &[0.0, -0.0, -5.0, f64::NAN, f64::INFINITY, f64::NEG_INFINITY, 1e300, 1e-300, 5e-324,
+                    0.25, 0.49, 0.51, f64::MAX, 4_503_599_627_370_496.0] {
+            let pat = rng.below(PATS.len() as u64) as usize;
+            let n = rng.below(40) as usize;
+            let vals = pattern(&mut rng, n, pat);
+            let parts = 1 + rng.below(3) as usize;
+            let (prog, _) = partition_prog(&mut rng, c, &vals, parts);
+            let gm = draw_mode(&mut rng);
+            let qs = arrange(&mut rng, qs_short(), gm);
+            em.case("td", json!([prog, fjs(&qs), fjs(&xs_for(&vals))]), nfinite(&vals) >= 2,
+                    &["extreme-compression", PATS[pat], GRID_MODES[gm]]);
+        }
+    }
+
     // ---- 6. monotonicity in q (the open known finding lives here)
     let reps = if thorough { 600 } else { 120 };
     for i in 0..reps {
@@ -1253,7 +1321,9 @@ fn gen_light(seed: u64, tier: Tier, em: &mut Out) {
         vec![(64, 10_000, 4), (256, 10_000, 1), (1024, 10_000, 8), (256, 100_000, 16), (1024, 100_000, 4),
              (4096, 30_000, 2)]
     } else {
-        vec![(64, 3000, 4), (256, 10_000, 3), (1024, 10_000, 8)]
+        // quick: one case keeps the ranks-as-data path alive at this size; the error band for
+        // larger k and d is sampled by the compact "kh" cases tagged sampled-error-band
+        vec![(64, 3000, 4)]
     };
     for (k, d, parts) in kstat {
         let mut elems: Vec<u64> = (0..d).map(|_| rng.next_u64() >> 2).collect();
